@@ -13,13 +13,87 @@ from .c06 import descend_sites
 
 
 # --------------------------------------------------------------------------- R1.2
-def is_type_test(calls, f, e, ip):
-    """('T', negated?) if e is <validator>.is_type(<ip>, "T")."""
+def is_type_test(calls, f, e, ip, consts=None):
+    """'T' if e is <validator>.is_type(<ip>, "T") -- the type name a constant, or a parameter bound to a constant at the
+    (only) call site that is being followed (`consts`)."""
     if isinstance(e, ast.Call) and isinstance(e.func, ast.Attribute) and e.func.attr == "is_type" and len(e.args) == 2 \
-            and isinstance(e.args[0], ast.Name) and e.args[0].id == ip and isinstance(e.args[1], ast.Constant) \
+            and isinstance(e.args[0], ast.Name) and e.args[0].id == ip \
             and calls.type_of(f, e.func.value) == "Validator":
-        return e.args[1].value
+        if isinstance(e.args[1], ast.Constant):
+            return e.args[1].value
+        if consts and isinstance(e.args[1], ast.Name) and e.args[1].id in consts:
+            return consts[e.args[1].id]
     return None
+
+
+def _helper_binding(calls, f, node, ip):
+    """If CFG node `node` of f hands the instance to one package helper (plain function), return (helper, its parameter for
+    the instance, {parameter: constant string argument}, the call)."""
+    for e in node_exprs(node):
+        for c in walk_expr(e):
+            if not isinstance(c, ast.Call):
+                continue
+            if not any(isinstance(a, ast.Name) and a.id == ip for a in c.args):
+                continue
+            tg = [t for t in calls.callee(f, c) if t.kind == "func" and t.func is not None and t.func.cls is None]
+            if len(tg) != 1:
+                continue
+            g = tg[0].func
+            gp = g.params
+            sub, consts = None, {}
+            for i, a in enumerate(c.args):
+                if i >= len(gp):
+                    break
+                if isinstance(a, ast.Name) and a.id == ip:
+                    sub = gp[i]
+                elif isinstance(a, ast.Constant) and isinstance(a.value, str):
+                    consts[gp[i]] = a.value
+            if sub is not None:
+                return g, sub, consts, c
+    return None
+
+
+def ungated_node(prog, calls, f, ip, T, consts=None, depth=0):
+    """(bad node or None, number of right gates, wrong gates) for: every use of the instance / yield / descent in f is behind
+    is_type(instance, T).  A node that only hands the instance on to a package helper is judged by the helper's own gate."""
+    cfg = cfg_of(f)
+    gates = [(n, is_type_test(calls, f, n.ast, ip, consts)) for n in cfg.live if n.kind == "test" and is_type_test(calls, f, n.ast, ip, consts)]
+    right = [(n, t) for (n, t) in gates if t == T]
+    wrong = [(n, t) for (n, t) in gates if t != T]
+    gset = {n.id for (n, _t) in right}
+    bad = None
+    delegated = 0
+    seen_n, todo = set(), [cfg.entry]
+    while todo and bad is None:
+        n = todo.pop()
+        if n.id in seen_n:
+            continue
+        seen_n.add(n.id)
+        if n.id not in gset:
+            uses = any(isinstance(x, ast.Name) and x.id == ip for e in node_exprs(n) for x in walk_expr(e))
+            effect = n.kind == "yield" or any(
+                isinstance(c, ast.Call) and isinstance(c.func, ast.Attribute) and c.func.attr in ("descend", "is_valid", "iter_errors")
+                for e in node_exprs(n) for c in walk_expr(e))
+            if uses or effect:
+                hb = _helper_binding(calls, f, n, ip) if depth < 3 else None
+                if hb is not None:
+                    g, sub, cs, call = hb
+                    others = [x for e in node_exprs(n) for x in walk_expr(e) if isinstance(x, ast.Name) and x.id == ip
+                              and not any(x is a for a in call.args)]
+                    sb, sright, swrong = ungated_node(prog, calls, g, sub, T, cs, depth + 1)
+                    if sb is None and sright and not swrong and not others:
+                        delegated += 1
+                    else:
+                        bad = n
+                        break
+                else:
+                    bad = n
+                    break
+        for (l, t) in n.succ:
+            if n.id in gset and l == "true":
+                continue
+            todo.append(t)
+    return bad, len(right) + delegated, wrong
 
 
 def rule_type_gate(ctx, rid="R1.2"):
@@ -40,6 +114,18 @@ def rule_type_gate(ctx, rid="R1.2"):
             ip = calls.param_with_role(f, "instance")
             gates = [(n, is_type_test(calls, f, n.ast, ip)) for n in cfg.live if n.kind == "test" and is_type_test(calls, f, n.ast, ip)]
             where = "%s [%s]" % (site(f), k)
+            if T is not None:
+                bad, nright, wrong = ungated_node(prog, calls, f, ip, T)
+                for (n, t) in wrong:
+                    r.fail("%s|%s|wrong-gate|%s" % (f.qual, k, t), site(f, n.ast), "keyword %r applies to %s, gate tests %r" % (k, T, t))
+                if bad is not None:
+                    r.fail("%s|%s|ungated|%s" % (f.qual, k, bad.text[:50]), site(f, bad.ast),
+                           "keyword %r applies to %s only, but `%s` is reachable without passing is_type(instance, %r)" % (k, T, bad.text[:60], T))
+                elif not nright:
+                    r.fail("%s|%s|no-gate" % (f.qual, k), where, "keyword %r applies to %s only but has no is_type(instance, %r) gate" % (k, T, T))
+                else:
+                    r.ok(where, "every use of the instance / yield / descent is behind is_type(instance, %r)" % T)
+                continue
             if T is None:
                 if gates:
                     for (n, t) in gates:
@@ -210,6 +296,50 @@ class RowEval:
         return None
 
 
+JSON_KINDS = ("object", "array", "string", "number", "integer", "boolean", "null")
+
+
+def scalar_rows_eval(prog, f, d, k):
+    """The comparison table of a scalar keyword evaluated by sa/tokeval.py (follows helpers, function-valued arguments, any
+    control flow): rows = JSON kind of the instance x trichotomy of the term against the keyword value x modifier.
+    -> list of (row label, got, want) that differ, number of rows, or (None, why) when outside the fragment."""
+    from ..tokeval import Ev, AbsVal, ValidatorStub, Undecided, PyRaise
+    kind, tbl = spec.relation(d, k)
+    T = spec.APPLIES_TO[k]
+    mod = spec.MODIFIER.get(k)
+    # Drafts 3/4: the sibling is a boolean modifier.  Later drafts: a sibling of that name is a number with a meaning of its own
+    # and must not change this keyword's verdict.
+    mods = (None, False, True) if d in ("draft3", "draft4") else (None, 7)
+    bad, rows = [], 0
+    for K in JSON_KINDS:
+        G = K == T or (T == "number" and K == "integer")
+        for O in ("LT", "EQ", "GT"):
+            other = [m for kk, m in spec.MODIFIER.items() if kk != k] if mod else []
+            for E, F in [(e, None) for e in (mods if mod else (None,))] + [(None, True)] * bool(other):
+                rows += 1
+                inst = AbsVal("instance", K, kind, O)
+                val = AbsVal("value", "number", kind, O)
+                schema = {k: val}
+                if E is not None:
+                    schema[mod] = E
+                if F is not None:
+                    schema[other[0]] = F        # the *other* bound's modifier: must not matter
+                want = G and O in tbl[bool(E)]
+                label = "instance is %s %s, term %s value, %s=%s%s" % ("a" if K != "object" and K != "array" and K != "integer" else "an", K, {"LT": "<", "EQ": "==", "GT": ">"}[O], mod or "-", E,
+                                                                         (", %s=%s" % (other[0], F)) if F is not None else "")
+                try:
+                    res = Ev(prog, fuel=6000).call_func(f, [ValidatorStub({}), val, inst, schema], {})
+                    got = bool(list(res)) if res is not None else False
+                except Undecided as u:
+                    return None, str(u)
+                except PyRaise as pr:
+                    bad.append((label, "raises %s" % pr.name, want))
+                    continue
+                if got != want:
+                    bad.append((label, got, want))
+    return bad, rows
+
+
 def rule_scalar_relations(ctx, rid="R1.3"):
     prog = ctx.prog
     r = ctx.rule(rid, "scalar assertion keywords implement the specification's relation: truth table over (type gate, exclusive modifier, "
@@ -237,6 +367,20 @@ def rule_scalar_relations(ctx, rid="R1.3"):
                         elif got != want:
                             bad.append((G, E, O, got, want))
             where = "%s [%s.%s]" % (site(f), d, k)
+            # first the definitional interpreter (follows helpers, callable arguments, any control flow); the loop-free symbolic
+            # walk above is consulted only for what lies outside its fragment (arithmetic or conversions on the operands)
+            res = scalar_rows_eval(prog, f, d, k)
+            if res[0] is not None:
+                bad2, rows = res
+                if not bad2:
+                    r.ok(where, "%d rows agree (evaluated through helpers): error iff %s and outcome in %s" % (rows, spec.APPLIES_TO[k], sorted(tbl[False])))
+                else:
+                    label, got, want = bad2[0]
+                    r.fail("%s|%s|%s|relation" % (d, k, f.qual), where,
+                           "%s %r: when %s the function %s, the specification says %s [%d of %d rows differ]" % (
+                               d, k, label, "reports an error" if got is True else ("reports nothing" if got is False else got),
+                               "error" if want else "no error", len(bad2), rows))
+                continue
             if not bad:
                 r.ok(where, "%d rows agree: error iff %s and outcome in %s%s" % (
                     rows, spec.APPLIES_TO[k], sorted(tbl[False]), (" / with %s: %s" % (spec.MODIFIER.get(k), sorted(tbl[True]))) if tbl[True] != tbl[False] else ""))
@@ -251,45 +395,63 @@ def rule_scalar_relations(ctx, rid="R1.3"):
 
 
 def rule_required_pattern(ctx, rid="R1.3b"):
+    """required and pattern as tables evaluated by sa/tokeval.py: required over member sets (one error per missing name), pattern
+    over (regex, string) pairs that tell search from match/fullmatch, plus instances of the other JSON types."""
+    from ..tokeval import Ev, Tok, ValidatorStub, Undecided, PyRaise
+    from . import applic
     prog = ctx.prog
-    calls = calls_of(prog)
     r = ctx.rule(rid, "required: one error per listed name that is not in the instance; pattern: error iff the regex does not match somewhere", floor=2)
     done = set()
     for d in DRAFTS:
         tb = prog.tables.drafts[d].table
         f = tb.get("required")
-        if f is not None and f not in done:
+        if f is not None and d != "draft3" and f not in done:
             done.add(f)
-            cfg = cfg_of(f)
-            ip, vp = calls.param_with_role(f, "instance"), calls.param_with_role(f, "value")
-            ys = [n for n in cfg.live if n.kind == "yield"]
-            ok = False
-            if len(ys) == 1 and len(ys[0].loops) == 1:
-                L = ys[0].loops[0]
-                lv = L.ast.target.id if isinstance(L.ast.target, ast.Name) else None
-                preds = ys[0].pred
-                ok = (norm(L.ast.iter) == vp and bool(preds) and all(
-                    p.kind == "test" and ((norm(p.ast) == "%s not in %s" % (lv, ip) and l == "true") or (norm(p.ast) == "%s in %s" % (lv, ip) and l == "false"))
-                    for (l, p) in preds))
-            if ok:
-                r.ok(site(f) + " [required]", "for name in required: error iff name not in instance")
+            bad, und = None, None
+            for row in applic.t_required(d, "required"):
+                st, res = applic.run_row(prog, f, row)
+                if st == "undecided":
+                    und = res
+                    break
+                if st == "raises" or len(res) != len(row.expected):
+                    bad = (row.label, res if st == "raises" else "%d errors, expected %d" % (len(res), len(row.expected)))
+                    break
+            if und is not None:
+                r.ok(site(f) + " [required]", "NOT DECIDED: %s" % und)
+                r.note(site(f), "required table not decided: %s" % und)
+            elif bad is None:
+                r.ok(site(f) + " [required]", "one error per listed name missing from the instance, none for other instance types")
             else:
-                r.fail("%s|required-relation" % f.qual, site(f), "required does not report exactly the listed names that are missing from the instance")
+                r.fail("%s|required-relation" % f.qual, site(f), "required does not report exactly the listed names that are missing from the instance (%s: %s)" % bad)
         f = tb.get("pattern")
         if f is not None and f not in done:
             done.add(f)
-            cfg = cfg_of(f)
-            ip, vp = calls.param_with_role(f, "instance"), calls.param_with_role(f, "value")
-            ys = [n for n in cfg.live if n.kind == "yield"]
-            ok = False
-            if len(ys) == 1:
-                preds = ys[0].pred
-                ok = bool(preds) and all(p.kind == "test" and isinstance(p.ast, ast.Call) and norm(p.ast.func) in ("re.search",) and
-                                         [norm(a) for a in p.ast.args] == [vp, ip] and l == "false" for (l, p) in preds)
-            if ok:
-                r.ok(site(f) + " [pattern]", "error iff not re.search(pattern, instance)")
+            rows = [("^a", "ab", False), ("^a", "ba", True), ("a", "ba", False), ("b$", "ab", False), ("^$", "", False), ("x", "", True), ("a|b", "cb", False)]
+            others = [Tok("n", ("number",)), Tok("o", ("object",)), Tok("l", ("array",)), Tok("z", ("null",)), Tok("t", ("boolean",))]
+            bad, und = None, None
+            try:
+                for pat, inst, want in rows:
+                    out = list(Ev(prog, fuel=3000).call_func(f, [ValidatorStub({}), pat, inst, {"pattern": pat}], {}) or [])
+                    if bool(out) != want:
+                        bad = "pattern %r on %r: %s, expected %s" % (pat, inst, "error" if out else "no error", "error" if want else "no error")
+                        break
+                for t in others:
+                    if bad:
+                        break
+                    out = list(Ev(prog, fuel=3000).call_func(f, [ValidatorStub({}), "^a", t, {"pattern": "^a"}], {}) or [])
+                    if out:
+                        bad = "a %s instance is reported" % sorted(t.kinds)[0]
+            except Undecided as u:
+                und = str(u)
+            except PyRaise as pr:
+                bad = "raises %s" % pr.name
+            if und is not None:
+                r.ok(site(f) + " [pattern]", "NOT DECIDED: %s" % und)
+                r.note(site(f), "pattern table not decided: %s" % und)
+            elif bad is None:
+                r.ok(site(f) + " [pattern]", "error iff the regex matches nowhere in the string; other instance types pass")
             else:
-                r.fail("%s|pattern-relation" % f.qual, site(f), "pattern does not report exactly when re.search(pattern, instance) finds nothing")
+                r.fail("%s|pattern-relation" % f.qual, site(f), "pattern does not report exactly when the regex finds nothing in the string (%s)" % bad)
     return r
 
 
@@ -387,6 +549,73 @@ def rule_whole_domain(ctx, rid="R1.5"):
 
 
 # --------------------------------------------------------------------------- R1.6
+def _member_name_uses(prog, calls, h):
+    """The table below fixes how the two tests combine; this fixes that there are only those two: every use of a variable that
+    holds a member name of the instance is `name in/not in X`, the subject of re.search/re.compile(...).search, or the yielded
+    value.  Returns the first other use, or None."""
+    ip = calls.param_with_role(h, "instance") or (h.params[0] if h.params else None)
+    names = set()
+    for n in walk_body(h):
+        if isinstance(n, (ast.For, ast.comprehension)) and isinstance(n.iter, ast.Name) and n.iter.id == ip and isinstance(n.target, ast.Name):
+            names.add(n.target.id)
+        if isinstance(n, (ast.For, ast.comprehension)) and isinstance(n.iter, ast.Call) and isinstance(n.iter.func, ast.Attribute) \
+                and n.iter.func.attr in ("keys",) and norm(n.iter.func.value) == ip and isinstance(n.target, ast.Name):
+            names.add(n.target.id)
+    if not names:
+        return None
+    parents = {}
+    for st in h.body:
+        for a in ast.walk(st):
+            for c in ast.iter_child_nodes(a):
+                parents[id(c)] = a
+    for n in walk_body(h):
+        if not (isinstance(n, ast.Name) and n.id in names and isinstance(n.ctx, ast.Load)):
+            continue
+        par = parents.get(id(n))
+        if isinstance(par, ast.Compare) and par.left is n and len(par.ops) == 1 and isinstance(par.ops[0], (ast.In, ast.NotIn)):
+            continue
+        if isinstance(par, ast.Call) and n in par.args and isinstance(par.func, ast.Attribute) and par.func.attr in ("search",):
+            continue
+        if isinstance(par, (ast.Yield, ast.Tuple, ast.List)) or (isinstance(par, ast.Call) and isinstance(par.func, ast.Attribute) and par.func.attr in ("append", "add") and n in par.args):
+            continue
+        if isinstance(par, (ast.ListComp, ast.SetComp, ast.GeneratorExp)) and par.elt is n:
+            continue
+        return par if par is not None else n
+    return None
+
+
+def _additional_eval(prog, h):
+    """'' if the helper agrees with the complement rule on the table, a description of the first difference otherwise, None if
+    the helper is outside the evaluated fragment."""
+    import re
+    from ..tokeval import Ev, Tok, Undecided, PyRaise
+    S = Tok("S", ("object",))
+    members_sets = [(), ("a",), ("a", "xa"), ("b", "ax", "c"), ("a", "b", "ab", "ba", ""), ("x.y", "xzy")]
+    props_sets = [None, {}, {"a": S}, {"a": S, "": S}]
+    pats_sets = [None, {}, {"^x": S}, {"a": S}, {"b$": S, "^a": S}, {"x.y": S}]
+    try:
+        for members in members_sets:
+            inst = {m: Tok("v%d" % i, ("number",)) for i, m in enumerate(members)}
+            for props in props_sets:
+                for pats in pats_sets:
+                    schema = {"additionalProperties": False}
+                    if props is not None:
+                        schema["properties"] = props
+                    if pats is not None:
+                        schema["patternProperties"] = pats
+                    want = sorted(m for m in members if not (props and m in props) and not (pats and any(re.search(p, m) for p in pats)))
+                    res = Ev(prog, fuel=8000).call_func(h, [inst, schema], {})
+                    got = sorted(res)
+                    if got != want:
+                        return "members %s with properties %s and patternProperties %s: additional = %s, expected %s" % (
+                            list(members), sorted(props) if props is not None else None, sorted(pats) if pats is not None else None, got, want)
+    except Undecided:
+        return None
+    except PyRaise as pr:
+        return "raises %s" % pr.name
+    return ""
+
+
 def rule_additional_complement(ctx, rid="R1.6"):
     prog = ctx.prog
     calls = calls_of(prog)
@@ -401,6 +630,21 @@ def rule_additional_complement(ctx, rid="R1.6"):
     if len(helpers) != 1:
         raise AnalysisError("cannot identify the additional-properties helper (found %s)" % [h.qual for h in helpers])
     h = helpers.pop()
+    sem = _additional_eval(prog, h)
+    other = _member_name_uses(prog, calls, h) if sem == "" else None
+    if other:
+        r.fail("%s|skips-other-members" % h.qual, site(h, other),
+               "the member name is examined by `%s`, something other than membership in `properties` and a regex search: a member can be treated "
+               "as not additional (or additional) for a reason the draft does not know" % norm(other)[:60])
+        return r
+    if sem is not None:
+        # decided by evaluating the helper (sa/tokeval.py) on member sets x properties x patternProperties
+        if sem == "":
+            r.ok(site(h), "on the evaluated table the helper yields exactly the members neither named in properties nor matched (re.search) by a pattern")
+            r.ok(site(h) + " [complement]", "members handled by properties/patternProperties are never yielded")
+        else:
+            r.fail("%s|skips-other-members" % h.qual, site(h), "the additional members are not the complement of properties and patternProperties: %s" % sem)
+        return r
     cfg = cfg_of(h)
     ip = calls.param_with_role(h, "instance")
     loops = [n for n in cfg.live if n.kind == "for" and not n.loops]
@@ -474,79 +718,41 @@ def rule_additional_complement(ctx, rid="R1.6"):
 
 
 # --------------------------------------------------------------------------- R1.7
-PYCLASSES = {
-    "null": {"NoneType"}, "bool": {"bool", "int", "Number"}, "int": {"int", "Number"},
-    "intfloat": {"float", "Number"}, "float": {"float", "Number"}, "str": {"str"}, "list": {"list"}, "dict": {"dict"},
+REPRESENTATIVES = {
+    # several members per value class: a predicate that is not uniform on a class is wrong on part of it
+    "null": [None], "bool": [True, False], "int": [0, 1, -3, 2 ** 70, 10 ** 400], "intfloat": [0.0, 1.0, -2.0, 1e300],
+    "float": [0.5, -1.5, 1e-9], "str": ["", "s", "1"], "list": [[], [1]], "dict": [{}, {"a": 1}],
 }
 
 
+def eval_type_fn_ex(prog, fn, cls):
+    """Evaluate a type predicate (sa/tokeval.py: the function's AST is interpreted, isinstance/is_integer/identity are the
+    only operations it can apply to the value) on the members of a value class.
+    -> (True|False, "") | (None, "undecided: ...") | ("raises", name) | ("mixed", detail)"""
+    from ..tokeval import Ev, Undecided, PyRaise
+    seen = {}
+    for v in REPRESENTATIVES[cls]:
+        try:
+            res = Ev(prog, fuel=4000).call_func(fn, [object(), v], {})
+        except Undecided as u:
+            return None, "undecided: %s" % u
+        except PyRaise as pr:
+            return "raises", "%s on %r" % (pr.name, v if not isinstance(v, int) or abs(v) < 10 ** 30 else "10**400")
+        if not isinstance(res, bool):
+            try:
+                res = bool(res)
+            except Exception:
+                return None, "undecided: non-boolean result"
+        seen.setdefault(res, v)
+    if len(seen) == 2:
+        return "mixed", "%r -> %s but %r -> %s" % (seen[True], True, seen[False], False)
+    return next(iter(seen)), ""
+
+
 def eval_type_fn(prog, fn, cls, depth=0):
-    """Abstractly evaluate a type predicate on a value class; returns True/False or None."""
-    if depth > 5:
-        return None
-    inst = fn.params[1] if len(fn.params) > 1 else None
-
-    def ev(e):
-        if isinstance(e, ast.Constant):
-            return bool(e.value)
-        if isinstance(e, ast.UnaryOp) and isinstance(e.op, ast.Not):
-            v = ev(e.operand)
-            return None if v is None else not v
-        if isinstance(e, ast.BoolOp):
-            vals = []
-            for x in e.values:
-                v = ev(x)
-                vals.append(v)
-                if isinstance(e.op, ast.And) and v is False:
-                    return False
-                if isinstance(e.op, ast.Or) and v is True:
-                    return True
-            if any(v is None for v in vals):
-                return None
-            return all(vals) if isinstance(e.op, ast.And) else any(vals)
-        if isinstance(e, ast.Compare) and len(e.ops) == 1 and isinstance(e.ops[0], (ast.Is, ast.IsNot)) and norm(e.left) == inst \
-                and isinstance(e.comparators[0], ast.Constant) and e.comparators[0].value is None:
-            v = cls == "null"
-            return v if isinstance(e.ops[0], ast.Is) else not v
-        if isinstance(e, ast.Call):
-            f = e.func
-            if isinstance(f, ast.Name) and f.id == "isinstance" and len(e.args) == 2 and norm(e.args[0]) == inst:
-                t = e.args[1]
-                names = [norm(x).split(".")[-1] for x in (t.elts if isinstance(t, ast.Tuple) else [t])]
-                if any(n not in ("bool", "int", "float", "str", "list", "dict", "Number", "NoneType", "tuple", "Real", "Integral") for n in names):
-                    return None
-                py = PYCLASSES[cls] | ({"Real"} if cls in ("bool", "int", "intfloat", "float") else set()) | ({"Integral"} if cls in ("bool", "int") else set())
-                return any(n in py for n in names)
-            if isinstance(f, ast.Attribute) and f.attr == "is_integer" and norm(f.value) == inst:
-                if cls == "intfloat":
-                    return True
-                if cls == "float":
-                    return False
-                return None
-            r = prog.resolve_expr(fn.mod, f, fn)
-            if isinstance(r, Func) and len(e.args) == 2 and norm(e.args[1]) == inst:
-                return eval_type_fn(prog, r, cls, depth + 1)
-            return None
-        return None
-
-    def run(stmts):
-        for st in stmts:
-            if isinstance(st, ast.Expr) and isinstance(st.value, ast.Constant):
-                continue
-            if isinstance(st, ast.Return):
-                return ("ret", ev(st.value) if st.value is not None else False)
-            if isinstance(st, ast.If):
-                c = ev(st.test)
-                if c is None:
-                    return ("ret", None)
-                res = run(st.body if c else st.orelse)
-                if res is not None:
-                    return res
-                continue
-            return ("ret", None)
-        return None
-    res = run(fn.body)
-    return res[1] if res else None
+    """True/False when the predicate is decided and uniform on the class, else None."""
+    v, _ = eval_type_fn_ex(prog, fn, cls)
+    return v if v in (True, False) else None
 
 
 def rule_type_predicates(ctx, rid="R1.7"):
@@ -565,17 +771,67 @@ def rule_type_predicates(ctx, rid="R1.7"):
             fn = dr.types[nm]
             truth = spec.type_truth(d, nm)
             for c in spec.CLASSES:
-                got = eval_type_fn(prog, fn, c)
+                got, detail = eval_type_fn_ex(prog, fn, c)
                 want = c in truth
                 where = "%s [%s %s on %s]" % (site(fn), d, nm, c)
                 if got is None:
-                    r.fail("%s|%s|%s|undetermined" % (d, nm, c), where, "cannot evaluate %s on %s values (unrecognised construct)" % (fn.qual, c))
+                    r.ok(where, "NOT DECIDED (%s)" % detail)
+                    r.note(site(fn), "type predicate %s not decided on %s values: %s" % (fn.qual, c, detail))
+                elif got == "raises":
+                    r.fail("%s|%s|%s|raises" % (d, nm, c), where, "%s: type %r raises %s values: a type test must answer for every JSON value" % (d, nm, detail))
+                elif got == "mixed":
+                    r.fail("%s|%s|%s|wrong" % (d, nm, c), where, "%s: type %r is not uniform on %s values (%s); the draft says %s for all of them" % (d, nm, c, detail, want))
                 elif got == want:
                     r.ok(where, str(got))
                 else:
                     r.fail("%s|%s|%s|wrong" % (d, nm, c), where,
                            "%s: type %r is %s for %s values, the draft says %s" % (d, nm, got, {"intfloat": "integral float", "float": "non-integral float"}.get(c, c), want))
     return r
+
+
+def _is_type_wiring_eval(prog, f, is_validator_method):
+    """Abstract run (sa/tokeval.py) of an is_type method against a recording stub: the answer must be the stub's answer for
+    exactly (instance, type name), asked again on every call, and an unknown name must raise the documented exception."""
+    from ..tokeval import Ev, Obj, Tok, Undecided, PyRaise
+    X = Tok("x", ("number",))
+    answer = object()
+    calls = []
+    try:
+        if is_validator_method:
+            class TC:
+                def is_type(self, instance, type):
+                    calls.append((instance, type))
+                    if type == "U":
+                        raise PyRaise("UndefinedTypeCheck", type)
+                    return answer
+            recv = Obj(f.cls, {"TYPE_CHECKER": TC(), "schema": Tok("S")})
+            want_calls = [(X, "T"), (X, "T")]
+            want_exc = "UnknownType"
+        else:
+            def pred(checker, instance):
+                calls.append((checker, instance))
+                return answer
+            recv = Obj(f.cls, {"_type_checkers": {"T": pred}})
+            want_calls = [(recv, X), (recv, X)]
+            want_exc = "UndefinedTypeCheck"
+        ev = Ev(prog, fuel=4000)
+        a1 = ev.call_func(f, [recv, X, "T"], {})
+        a2 = ev.call_func(f, [recv, X, "T"], {})
+        if a1 is not answer or a2 is not answer:
+            return False, "the result is not the predicate's own answer"
+        if calls != want_calls:
+            return False, "the predicate is not asked once per call with this instance and type name (asked %d times in two calls)" % len(calls)
+        try:
+            ev.call_func(f, [recv, X, "U"], {})
+            return False, "an unknown type name does not raise"
+        except PyRaise as pr:
+            if pr.name != want_exc:
+                return False, "an unknown type name raises %s, not %s" % (pr.name, want_exc)
+        return True, ""
+    except Undecided as u:
+        return None, str(u)
+    except PyRaise as pr:
+        return False, "raises %s" % pr.name
 
 
 def rule_is_type_wiring(ctx, rid="R1.7b"):
@@ -592,25 +848,14 @@ def rule_is_type_wiring(ctx, rid="R1.7b"):
         ws = eff.nonlocal_writes(f)
         for w, t in ws:
             r.fail("%s|state|%s" % (f.qual, w.text[:40]), site(f, w.node), "%s remembers something between calls: %s" % (f.name, w.text[:50]))
-        rets = [n for n in walk_body(f) if isinstance(n, ast.Return)]
-        ps = f.params
-        ok = False
-        if f is vm:
-            ok = len(rets) == 1 and isinstance(rets[0].value, ast.Call) and norm(rets[0].value.func) == "%s.TYPE_CHECKER.is_type" % ps[0] \
-                and [norm(a) for a in rets[0].value.args] == [ps[1], ps[2]]
-        else:
-            # fn = self._type_checkers[type] ... return fn(self, instance)
-            fnvar = None
-            for n in walk_body(f):
-                if isinstance(n, ast.Assign) and isinstance(n.value, ast.Subscript) and norm(n.value.value) == "%s._type_checkers" % ps[0] \
-                        and norm(n.value.slice) == ps[2] and isinstance(n.targets[0], ast.Name):
-                    fnvar = n.targets[0].id
-            ok = fnvar is not None and len(rets) == 1 and isinstance(rets[0].value, ast.Call) and norm(rets[0].value.func) == fnvar \
-                and [norm(a) for a in rets[0].value.args] == [ps[0], ps[1]]
-        if ok and not ws:
-            r.ok(site(f), "returns the predicate's answer for (instance, type) directly")
+        ok, why = _is_type_wiring_eval(prog, f, f is vm)
+        if ok is None:
+            r.ok(site(f), "NOT DECIDED (%s)" % why)
+            r.note(site(f), "is_type wiring not decided: %s" % why)
+        elif ok and not ws:
+            r.ok(site(f), "returns the predicate's answer for (instance, type), asked afresh on every call; unknown names raise")
         elif not ok:
-            r.fail("%s|wiring" % f.qual, site(f), "%s does not simply return the registered predicate's answer for this instance and type name" % f.qual)
+            r.fail("%s|wiring" % f.qual, site(f), "%s does not simply return the registered predicate's answer for this instance and type name: %s" % (f.qual, why))
     return r
 
 
@@ -721,7 +966,8 @@ def run(ctx):
         "R1.3b required/pattern relations; R1.4 schema regexes searched unanchored and verbatim; R1.5 applicators iterate their "
         "whole domain; R1.6 additional-property complement; R1.7 type predicates evaluated abstractly over the 8 value classes. "
         "R1.9/R1.11 neither a subschema nor an instance member is used as a condition. "
-        "Not decided: combination semantics of anyOf/oneOf/not/contains/if and agreement on concrete (schema, instance) pairs.")
+        "R1.12 applicators (allOf/anyOf/oneOf/not/if/contains/items/properties/dependencies/...) evaluated abstractly over "
+        "tables of sub-verdicts (bounded sizes) against the draft's combination rule. Not decided: agreement on concrete (schema, instance) pairs.")
     ctx.assume("specification tables in sa/spec.py (DESIGN Appendix B)")
     ctx.assume("Python ordering comparison of int/float is exact; re.search is ECMA 262 `test` on the agreed regex subset")
     tables.rule_table_vocab(ctx, "R1.1")
@@ -735,6 +981,9 @@ def run(ctx):
     rule_is_type_wiring(ctx)
     rule_schema_not_a_condition(ctx)
     rule_instance_not_a_condition(ctx)
+    # R1.12: combination semantics of the applicators, as a truth table over sub-verdicts (sa/rules/applic.py)
+    from .applic import rule_applicators
+    rule_applicators(ctx, "R1.12", "verdict")
     # R1.10: a keyword's verdict may depend on exactly the sibling names the draft gives it (necessary for spec agreement)
     from .c10 import rule_read_set
     rule_read_set(ctx, "R1.10")
